@@ -8,6 +8,9 @@ import TT.IO.Read
 import TT.IO.Write
 import TT.Split
 import TT.Trans
+import TT.Grammar.Extract
+import TT.Grammar.Binarize
+import TT.Grammar.Output
 namespace TT
 open Tree
 
@@ -83,5 +86,23 @@ def runTransitions (steps : List Step) (sys : TransSys) (pos : Bool) (src : Exce
   let ts ← src
   let ts' ← transformAll steps ts
   ts'.mapM fun (_, t) => (oracle sys t).map (plainLine pos t)
+
+inductive GramType where
+  | treebank | leftright | optimal
+deriving DecidableEq, Repr
+
+/-- the documented defaults of `--markov`: v 1, h 2 -/
+def markovDefaults (v h : Option Nat) (nofanout : Bool) : MarkovOpts :=
+  { v := v.getD 1, h := h.getD 2, nofanout := nofanout }
+
+/-- `treetools grammar SRC DEST TYPE [--markov ...]` from the sentences the reader yields: the grammar and lexicon that
+    are handed to the writer -/
+def runGrammarFrom (gt : GramType) (mo : Option MarkovOpts) (src : Except Err (List (Nat × Tree))) : Except Err (Grammar × Lexicon) := do
+  let ts ← src
+  let (g, lex) := extractAll (ts.map (·.2))
+  pure (match gt with
+    | .treebank => g
+    | .leftright => binarizeGrammar .leftright mo g
+    | .optimal => binarizeGrammar .optimal mo g, lex)
 
 end TT
